@@ -1,6 +1,12 @@
 """property id -> harness modules (each exposes obligations(tier) -> [Ob])."""
 REGISTRY = {
+    "C01": ["vf.harness.c01"],
+    "C02": ["vf.harness.c02"],
+    "C03": ["vf.harness.c03"],
+    "C04": ["vf.harness.c04"],
+    "C05": ["vf.harness.c05"],
     "C06": ["vf.harness.c06"],
+    "C07": ["vf.harness.c07"],
     "C10": ["vf.harness.c10"],
     "C12": ["vf.harness.c12"],
     "C13": ["vf.harness.c13"],
